@@ -438,6 +438,131 @@ Fixpoint nodupb (l : list bytes) : bool :=
 Definition row_deterministic (r : record) : bool :=
   nodupb (map (fun kv => col_name r (fst kv)) (r_fields r)).
 
+(* ================================================================== WriteColumnarRecord -> Parquet *)
+
+(* ArrowBuffer.convertColumnsToTyped on the columns BatchToColumnar produced, followed by the
+   flush: what a Parquet reader finds.  A column takes the type of its first non-nil cell;
+   integers and unsigned integers share the int64 column, and toInt64 refuses an unsigned
+   value above MaxInt64 (the whole measurement of the request is then answered with an
+   error and nothing of it is stored).  Columns whose name starts with '_' are treated as
+   internal by the Arrow schema builder and never reach the file.  Float<->integer
+   coercions of mixed columns are not modelled ([CUnmodelled]). *)
+Inductive scell :=
+| SNull | SInt (z : Z) | SFloat (bits : Z) | SStr (s : bytes) | SBool (b : bool)
+| STime (z : Z) | STimeNow.
+
+Inductive cres (A : Type) := COk (x : A) | CReject | CUnmodelled.
+Arguments COk {A} _. Arguments CReject {A}. Arguments CUnmodelled {A}.
+
+Inductive ckind := KInt | KFloat | KStr | KBool.
+
+Definition kind_of (v : value) : ckind :=
+  match v with
+  | VInt _ | VUint _ | VNow => KInt
+  | VFloat _ | VFloatBits _ => KFloat
+  | VStr _ => KStr
+  | VBool _ => KBool
+  end.
+
+Fixpoint first_non_nil (cells : list (option value)) : option value :=
+  match cells with [] => None | Some v :: _ => Some v | None :: r => first_non_nil r end.
+
+(* toInt64 on what the parser can produce *)
+Definition to_int64 (v : value) : cres Z :=
+  match v with
+  | VInt z => COk z
+  | VUint z => if (z <=? max_i64)%Z then COk z else CReject
+  | VFloat _ | VFloatBits _ => CUnmodelled
+  | _ => CReject
+  end.
+
+Definition conv_cell (k : ckind) (c : option value) : cres scell :=
+  match c with
+  | None => COk SNull
+  | Some v =>
+    match k with
+    | KInt => match v with
+              | VNow => COk STimeNow
+              | _ => match to_int64 v with COk z => COk (SInt z) | CReject => CReject | CUnmodelled => CUnmodelled end
+              end
+    | KFloat => match v with
+                | VFloatBits b => COk (SFloat b)
+                | VInt _ | VUint _ | VFloat _ | VNow => CUnmodelled
+                | _ => CReject
+                end
+    | KStr => match v with VStr s => COk (SStr s) | _ => CReject end
+    | KBool => match v with VBool b => COk (SBool b) | _ => CReject end
+    end
+  end.
+
+(* the time column: always int64 -> Timestamp(us); nil and strings are refused *)
+Definition conv_time_cell (c : option value) : cres scell :=
+  match c with
+  | None => CReject
+  | Some VNow => COk STimeNow
+  | Some v => match to_int64 v with COk z => COk (STime z) | CReject => CReject | CUnmodelled => CUnmodelled end
+  end.
+
+Fixpoint cres_all {A} (l : list (cres A)) : cres (list A) :=
+  match l with
+  | [] => COk []
+  | x :: r =>
+    match x, cres_all r with
+    | CReject, _ => CReject
+    | _, CReject => CReject
+    | CUnmodelled, _ => CUnmodelled
+    | _, CUnmodelled => CUnmodelled
+    | COk a, COk b => COk (a :: b)
+    end
+  end.
+
+Definition store_column (name : bytes) (cells : list (option value)) : cres (list scell) :=
+  if bytes_eqb name s_time then
+    match first_non_nil cells with
+    | None => CReject
+    | Some (VStr _) => CReject
+    | Some _ => cres_all (map conv_time_cell cells)
+    end
+  else
+    match first_non_nil cells with
+    | None => COk (map (fun _ => SNull) cells)       (* all-null string column *)
+    | Some v => cres_all (map (conv_cell (kind_of v)) cells)
+    end.
+
+Definition internal_name (name : bytes) : bool := match name with c :: _ => c =? 95 | [] => true end.
+
+Definition nth_row (i : nat) (cols : list (bytes * list scell)) : list (bytes * scell) :=
+  map (fun nc => (fst nc, nth i (snd nc) SNull)) cols.
+
+(* rows a reader finds for one measurement of one request, or the refusal.
+   [keep_internal = false] is the code; [true] is what the points denote (every key stored) *)
+Definition store_measurement (keep_internal : bool) (cr : columnar) : cres (list (list (bytes * scell))) :=
+  match cres_all (map (fun nc => match store_column (fst nc) (snd nc) with
+                                 | COk cells => COk (fst nc, cells)
+                                 | CReject => CReject
+                                 | CUnmodelled => CUnmodelled
+                                 end) (c_cols cr)) with
+  | COk cols =>
+    let kept := filter (fun nc => keep_internal || negb (internal_name (fst nc))) cols in
+    let n := match c_cols cr with (_, cells) :: _ => length cells | [] => O end in
+    COk (map (fun i => nth_row i kept) (seq 0 n))
+  | CReject => CReject
+  | CUnmodelled => CUnmodelled
+  end.
+
+(* a stored cell holds exactly the written value, with its type *)
+Definition cell_exact (c : option value) (s : scell) : Prop :=
+  match c, s with
+  | None, SNull => True
+  | Some (VInt z), SInt z' | Some (VInt z), STime z' => z = z'
+  | Some (VUint z), SInt z' | Some (VUint z), STime z' => z = z' /\ (z <= max_i64)%Z
+  | Some VNow, STimeNow => True
+  | Some (VFloatBits b), SFloat b' => b = b'
+  | Some (VStr x), SStr y => x = y
+  | Some (VBool x), SBool y => x = y
+  | _, _ => False
+  end.
+
 (* ================================================================== the grammar (spec side) *)
 
 (* A point as the client means it. *)
@@ -658,6 +783,49 @@ Definition columnars_eqb (model impl : list columnar) : bool :=
   Nat.eqb (length model) (length impl)
   && forallb (fun m => existsb (columnar_eqb m) impl) model.
 
+Definition scell_eqb (a b : scell) : bool :=
+  match a, b with
+  | SNull, SNull | STimeNow, STimeNow => true
+  | SInt x, SInt y | SFloat x, SFloat y | STime x, STime y => (x =? y)%Z
+  | SStr x, SStr y => bytes_eqb x y
+  | SBool x, SBool y => Bool.eqb x y
+  | _, _ => false
+  end.
+
+(* multiset equality of rows *)
+Fixpoint remove_first {A} (e : A -> A -> bool) (x : A) (l : list A) : option (list A) :=
+  match l with
+  | [] => None
+  | y :: r => if e x y then Some r else option_map (cons y) (remove_first e x r)
+  end.
+Fixpoint multiset_eqb {A} (e : A -> A -> bool) (a b : list A) : bool :=
+  match a with
+  | [] => match b with [] => true | _ => false end
+  | x :: r => match remove_first e x b with Some b' => multiset_eqb e r b' | None => false end
+  end.
+
+(* what was found in storage for one measurement *)
+Record sobs := { so_meas : bytes; so_accepted : bool; so_rows : list (list (bytes * scell)) }.
+
+(* [strict]: the verdict of the model must be matched exactly; otherwise (the property oracle)
+   only an ACCEPTED measurement is judged: it must be storable and stored exactly *)
+Definition stored_ok (strict : bool) (cr : columnar) (o : sobs) : bool :=
+  match store_measurement (negb strict) cr with
+  | CUnmodelled => true
+  | CReject => negb (so_accepted o) && match so_rows o with [] => true | _ => false end
+  | COk rows =>
+    if so_accepted o then multiset_eqb (map_eqb scell_eqb) rows (so_rows o)
+    else negb strict && match so_rows o with [] => true | _ => false end
+  end.
+
+Definition store_agrees (strict : bool) (cols : list columnar) (obs : list sobs) : bool :=
+  Nat.eqb (length cols) (length obs)
+  && forallb (fun cr => existsb (fun o => bytes_eqb (c_meas cr) (so_meas o) && stored_ok strict cr o) obs) cols.
+
+Definition resolve_record (t : ftable) (r : record) : record :=
+  {| r_meas := r_meas r; r_tags := r_tags r;
+     r_fields := map (fun kv => (fst kv, resolve t (snd kv))) (r_fields r); r_ts := r_ts r |}.
+
 Record ccase := {
   k_em : bool; k_tnl : bool;
   k_points : option (list point);   (* Some ps: the body was generated from these points *)
@@ -665,7 +833,8 @@ Record ccase := {
   k_data : bytes;                   (* the request body the implementation parsed *)
   k_floats : ftable;
   k_obs : list record;              (* records returned by ParseBatchWithPrecision *)
-  k_cols : option (list columnar)   (* BatchToColumnar of those records, when recorded *)
+  k_cols : option (list columnar);  (* BatchToColumnar of those records, when recorded *)
+  k_store : option (list sobs)      (* Parquet read-back after WriteColumnarRecord + FlushAll, when run *)
 }.
 
 (* model = implementation ([fx]: which key=value split the implementation is taken to
@@ -678,6 +847,10 @@ Definition case_agrees (fx : bool) (c : ccase) : bool :=
      | Some cols => negb (forallb row_deterministic (k_obs c))
                     || columnars_eqb (batch_to_columnar (k_obs c)) cols
      | None => true
+     end
+  && match k_cols c, k_store c with
+     | Some cols, Some obs => store_agrees true cols obs
+     | _, _ => true
      end.
 
 (* the body really is the canonical encoding of the points (ties the Python encoder to [encode_batch]) *)
@@ -703,6 +876,14 @@ Definition case_oracle (c : ccase) : bool :=
     list_eqb (record_eqb (k_floats c)) (map (conv (prec_of (k_prec c))) ps) (k_obs c)
     && match k_cols c with
        | Some cols => negb (forallb wf_record (k_obs c)) || cols_ok (k_obs c) cols
+       | None => true
+       end
+    (* second observable: every measurement the buffer ACCEPTED is in the Parquet files with
+       exactly the rows the points denote (typed values, nulls where absent) *)
+    && match k_store c with
+       | Some obs =>
+         let rs := map (fun p => resolve_record (k_floats c) (conv (prec_of (k_prec c)) p)) ps in
+         negb (forallb wf_record rs) || store_agrees false (batch_to_columnar rs) obs
        | None => true
        end
   | None => true
